@@ -2,6 +2,7 @@ import PoxModel.Proofs.Contain
 import PoxModel.Proofs.SwTrace
 import PoxModel.Proofs.CtlTrace
 import PoxModel.Proofs.Round
+import PoxModel.Proofs.LiveNet
 /-! # C10 — malformed OpenFlow input is contained to the offending connection
 
 `U` (the message decoders) is COMPLETELY unconstrained in every theorem of this file: it may return any offset, raise,
@@ -327,5 +328,61 @@ example : let items : List (Nat × Bytes) := [(0, [1,9,0,8,0,0,0,2]), (2, [1,2,0
           ((ctlRound demoU [init, init, init] items).2 = [(2, [1,2,0,8,0,0,0,1])]) ∧
           ((ctlRounds demoU 2 [init, init, init] items).1.map (fun x => (x.st, x.delivered)) = [(.closed, []), (.alive, []), (.alive, [2])]) ∧
           ((ctlRounds demoU 2 [init, init, init] items).2 = []) := by decide
+
+/-! ## histories with the real handlers: what a connection keeps BETWEEN messages stays with that connection
+
+`Model/LiveNet.lean`: a history hands each input to one connection object; `liveStep` is a connection with its own table of
+unfinished statistics replies, its handshake phase and its closed flag.  The first two theorems hold for EVERY
+per-connection step function (they are about where the state lives, not about what it is): they are what the live
+families of the harness test on the real `Connection` objects — an offender that leaves unfinished multipart replies
+(colliding xids and types), half a message, a pending handshake behind and is then dropped. -/
+section Live
+open Pox.LiveNet Pox.StatsAgg Pox.Spec17
+variable {S I E : Type}
+
+/-- **history_isolated**: in any history over any number of connections, what connection `j` is delivered — and the state it
+ends in — is what it is delivered when it runs alone on its own inputs. -/
+theorem history_isolated (step : S → I → S × List E) (net : List S) (h : List (Nat × I)) (j : Nat) (s : S) (hs : net[j]? = some s) :
+    traceOf j (runNet step net h).2 = (runOne step s (inputsOf j h)).2 ∧
+    (runNet step net h).1[j]? = some (runOne step s (inputsOf j h)).1 :=
+  run_proj step h net j s hs
+
+/-- **offender_never_existed**: every other connection is delivered exactly the events, and ends in exactly the state, of the
+history from which all of the offender's steps (whatever they are: partial replies, garbage, end of stream) are removed. -/
+theorem offender_never_existed (step : S → I → S × List E) (net : List S) (h : List (Nat × I)) (o j : Nat) (hjo : j ≠ o)
+    (hj : j < net.length) :
+    traceOf j (runNet step net h).2 = traceOf j (runNet step net (without o h)).2 ∧
+    (runNet step net h).1[j]? = (runNet step net (without o h)).1[j]? := by
+  have hs : net[j]? = some net[j] := List.getElem?_eq_getElem hj
+  have a := run_proj step h net j net[j] hs
+  have b := run_proj step (without o h) net j net[j] hs
+  rw [inputsOf_without j o hjo] at b
+  exact ⟨by rw [a.1, b.1], by rw [a.2, b.2]⟩
+
+/-- **closed_is_silent**: nothing is delivered on a connection after it has been dropped, whatever it is sent. -/
+theorem closed_is_silent (c : LConn) (hc : c.closed = true) (xs : List LIn) : runOne liveStep c xs = (c, []) := by
+  induction xs with
+  | nil => rfl
+  | cons x xs ih => simp [runOne, liveStep, hc, ih]
+
+/-- **live_event_is_own**: an aggregated statistics event delivered on connection `j` in a live history is the one the
+assembly of `j`'s OWN replies yields (instance of `history_isolated` for `liveStep`). -/
+theorem live_event_is_own (n : Nat) (h : List (Nat × LIn)) (j : Nat) (hj : j < n) :
+    traceOf j (runNet liveStep (List.replicate n LConn.init) h).2 = (runOne liveStep LConn.init (inputsOf j h)).2 := by
+  have hs : (List.replicate n LConn.init)[j]? = some LConn.init := by simp [hj]
+  exact (run_proj liveStep h _ j LConn.init hs).1
+
+/-- the hypotheses are satisfiable and the statement is not empty: connection 0 comes up, leaves two parts of reply (7, FLOW)
+unfinished and is dropped; connection 1 (up) then receives the last part of ITS reply (7, FLOW): its event carries exactly
+its own entries, and the offender is delivered nothing after the drop. -/
+def demoHist : List (Nat × LIn) :=
+  [(0, .up), (1, .up), (1, .stats ⟨7, 1, true, [10]⟩), (0, .stats ⟨7, 1, true, [20, 21]⟩), (0, .stats ⟨7, 1, true, [22]⟩),
+   (0, .close), (0, .stats ⟨7, 1, false, [23]⟩), (1, .stats ⟨7, 1, false, [11]⟩)]
+
+example : traceOf 1 (runNet liveStep [LConn.init, LConn.init] demoHist).2 =
+    [.raw 7 1 true, .raw 7 1 false, .out (.event ⟨1, [10, 11], [7, 7]⟩)] := by decide
+example : traceOf 0 (runNet liveStep [LConn.init, LConn.init] demoHist).2 = [.raw 7 1 true, .raw 7 1 true] := by decide
+example : without 0 demoHist = [(1, .up), (1, .stats ⟨7, 1, true, [10]⟩), (1, .stats ⟨7, 1, false, [11]⟩)] := by decide
+end Live
 
 end Pox.C10
